@@ -146,7 +146,21 @@ def run_contract_case(I, contract, case, timeout_ms=None, registry=None):
         inputs_holder = {}
 
         def run(ctx):
-            a = contract.setup(I, ctx, case)
+            try:
+                a = contract.setup(I, ctx, case)
+            except (ExcVal, Unsupported, Exception) as e_setup:
+                from .ctx import PathEnd
+                if isinstance(e_setup, PathEnd):
+                    raise
+                # a set-up that runs real code (history cases) may meet a construct it cannot execute on a path the quick feasibility
+                # probe (150 ms, unknown = feasible) left alive although it is infeasible: decide feasibility with a real budget first
+                s8 = z3.Solver()
+                s8.set("timeout", 10000)
+                for h in list(ctx.hyps()) + smt.theory_facts(list(ctx.hyps())):
+                    s8.add(h)
+                if s8.check() == z3.unsat:
+                    raise PathEnd()
+                raise
             inputs_holder["a"] = a
             if res["cover"] != "sat":
                 # (checked on every path until one is found satisfiable: the set-up itself may branch, and a branch whose
@@ -180,6 +194,12 @@ def run_contract_case(I, contract, case, timeout_ms=None, registry=None):
             kwargs = {p: a[p] for p in params if p in a}
             try:
                 r = I.inline_call(ctx, f, [], kwargs)
+                from . import builtins_ as _B
+                if isinstance(r, _B.OptVal):
+                    # a result that is None under a symbolic condition (e.g. `return table.get(key)` handed on as it is): the
+                    # postcondition sees the two cases as two paths, as it does when the code tests the value itself
+                    isn = smt.simp(r.is_none) if not isinstance(r.is_none, bool) else z3.BoolVal(r.is_none)
+                    r = None if ctx.branch(isn) else r.val
                 out = ("return", r)
             except ExcVal as e:
                 out = ("raise", e)
